@@ -73,4 +73,10 @@ PROPS = {
         "trusted": ["yaml.v3 scanner/parser (byte level) is not modelled; the mutation stream is a test, not a proof"],
         "partial": "for all byte strings: only from the decoded node graph on is proved (totality of the model, fuel bound, completeness, warning count, marshallability); yaml.v3's scanner totality is exercised by the byte-mutation stream only",
     },
+    "C10": {
+        "coq_deps": ["Props/C10.v"],
+        "rule": "env blocks of 1-6 entries whose names and values are built from segments (literals, $V / ${V}, ${V:-d}, ${V-d}, escaped $$V and \\$V, ${V?}) over a 7-name alphabet with mixed case, so chains, forward references, names built by expansion, collisions with later entries and overlaps with the runtime env all occur; both flag values; case-sensitive and case-insensitive caller environments (harness-side InterpolationEnv); driven through (*Pipeline).Interpolate with a probe command step; the raw text goes to the real interpolate library, the segment structure to the model. Observable: final env block (order and contents), caller env lookups for all names, probe string, error. Oracle: list-level top-to-bottom reference using the real library on a cloned env (block, write-back, rest-of-pipeline). Non-trivial = at least two entries.",
+        "trusted": ["buildkite/interpolate is the expansion function: a Section variable in the theorems, a segment evaluator in the correspondence (validated against the real library on the generated strings)"],
+        "partial": "the expansion function itself (interpolate library parser) is not verified",
+    },
 }
